@@ -752,8 +752,9 @@ class QueryObjectDescriptor(CanBehaveLikeAVariable[T], ABC):
     @lru_cache(maxsize=None)
     def _all_variable_instances_(self) -> List[Variable]:
         vars = []
-        if self.selected_variables:
-            vars.extend(self.selected_variables)
+        for selected in self.selected_variables or []:
+            # (a selected expression - x.a, flatten(x.items) - stands for the variables beneath it.)
+            vars.extend(selected._all_variable_instances_)
         if self._child_:
             vars.extend(self._child_._all_variable_instances_)
         return vars
